@@ -76,6 +76,9 @@ func main() {
 		{"keygen", e.keygenSection},
 		{"ids", e.idSection},
 		{"stat", e.statSection},
+		// appended sections (own rng streams; earlier lines do not move)
+		{"large", e.largeSection},
+		{"idhandle", e.idHandleSection},
 	}
 	for _, s := range sections {
 		if only != "" && only != s.name {
